@@ -19,6 +19,7 @@ import builtins
 import enum
 import functools
 import inspect
+import math
 import types
 from typing import Any, Callable, List, NamedTuple, Optional, Sequence, Type, Union
 
@@ -242,6 +243,9 @@ def _convert_int(value: Any, conversion_fn: PyValToCstFunc) -> cst.CSTNode:
 def _convert_float(value: Any, conversion_fn: PyValToCstFunc) -> cst.CSTNode:
   """Converts a constant float to CST."""
   del conversion_fn  # Not used.
+  if math.isinf(value) or math.isnan(value):
+    # repr() gives the bare names inf / nan, which are not Python expressions.
+    return cst.parse_expression(f'float({repr(value)!r})')
   return cst.parse_expression(repr(value))
 
 
